@@ -206,7 +206,9 @@ def mk_lap_add(cls):
     return h
 
 
-def mk_lap_sample(cls):
+def mk_lap_sample(cls, part=None):
+    """part: None = everything; 'law' = sampling law + rows + remembered batch; 'importance' = importance weights
+    (the two halves run as separate tasks in parallel; the importance half re-establishes the law it builds on)"""
     def h(E):
         from .C02 import _row_is_stored
 
@@ -253,13 +255,17 @@ def mk_lap_sample(cls):
             E.st.oblige_forall("sample.interval_law", [INT], goal, hint="q", using=["searchsorted", "cumsum", "PWF", "sample.points_inside_total"])
         else:
             sampling_law(E, "sample", idx, ln, weight, bs, unit, cs, S)
-        _row_is_stored(E, "sample", v, batch, idx, bs)
+        if part != "importance":
+            # lemma: every drawn position is a written slot (all the row clause needs from the interval law)
+            E.st.oblige_forall("sample.lemma.index_in_written_range", [INT], lambda q: z3.Implies(z3.And(q >= 0, q < bs.z), z3.And(C.as_int(idx.at(q)) >= 0, C.as_int(idx.at(q)) < C.to_z3(ln))),
+                               hint="q", using=["sample.interval_law"])
+            _row_is_stored(E, "sample", v, batch, idx, bs, using=["WF.data", "sample.lemma.index_in_written_range"])
         si = pb.fields["sampled_indices"]
         if isinstance(si, T.Tensor) and si.ndim == 1 and T.dim_eq(si.shape[0], bs):
             E.st.oblige_forall("sample.remembers_batch_for_update", [INT], lambda q: z3.Implies(z3.And(q >= 0, q < bs.z), C.as_int(si.at(q)) == C.as_int(idx.at(q))), hint="q")
         else:
             E.st.fail("sample.remembers_batch_for_update", "the indices of the sampled batch are not the ones update_priority will write to")
-        if ratio is not None:
+        if ratio is not None and part != "law":
             from pyvc.lib.np_model import cumsum_monotone
 
             rz = lambda q: C.as_real(ratio.at(q))  # noqa: E731
@@ -355,7 +361,8 @@ TASKS = [
     Task("LAP.sample_batch", mk_lap_sample("LAP")),
     Task("LAP.update_priority", mk_lap_update("LAP")),
     Task("PrioritizedReplayBuffer.add_sample", mk_lap_add("PrioritizedReplayBuffer")),
-    Task("PrioritizedReplayBuffer.sample_batch", mk_lap_sample("PrioritizedReplayBuffer")),
+    Task("PrioritizedReplayBuffer.sample_batch", mk_lap_sample("PrioritizedReplayBuffer", "law")),
+    Task("PrioritizedReplayBuffer.sample_batch[importance]", mk_lap_sample("PrioritizedReplayBuffer", "importance")),
     Task("PrioritizedReplayBuffer.update_priority", mk_lap_update("PrioritizedReplayBuffer")),
     Task("lap_priority", h_lap_priority),
     Task("per_priority", h_per_priority),
